@@ -33,8 +33,8 @@ CLASSES = ["quantized_linear", "quantized_bits", "bernoulli", "ternary", "stocha
 # alternatives for options whose default is None / bool / str (value builders get the scenario)
 ALT = {
     "alpha": ["auto", "auto_po2", ("real", "alpha")],
-    "scale_axis": [0],
-    "elements_per_scale": [2],
+    "scale_axis": [0, [0, 1]],
+    "elements_per_scale": [2, [2, 3]],
     "min_po2_exponent": [-3],
     "max_po2_exponent": [3],
     "max_value": [2.0, 0.5],
@@ -75,7 +75,7 @@ def read_set(ip, cls):
               work.append(n.attr)
             elif isinstance(n.ctx, ast.Load):
               attrs.add(n.attr)
-  return attrs - {"built", "scale"}
+  return attrs - {"built"}     # scale is compared as constructed (None, or the frozen post-training scale)
 
 
 def sym_for(ip, s, name, default):
@@ -109,6 +109,9 @@ def alt_value(ip, s, spec):
     v = z3.Real("alt_" + spec[1])
     s.vars["alt_" + spec[1]] = v
     ip.assume(v > 0)
+    if spec[1] == "pts":
+      # a per-row frozen scale: numpy array of shape (4, 1)
+      return SNum(v, "float", None, {"ndarray": True, "shape": (4, 1)})
     return SNum(v, "float")
   return spec
 
@@ -118,6 +121,10 @@ def same(ip, a, b):
   if a is b:
     return True
   if isinstance(a, SNum) and isinstance(b, (SNum, int, float)) or isinstance(b, SNum) and isinstance(a, (int, float)):
+    sa = a.tag.get("shape") if isinstance(a, SNum) and isinstance(a.tag, dict) else None
+    sb = b.tag.get("shape") if isinstance(b, SNum) and isinstance(b.tag, dict) else None
+    if sa is not None and sb is not None and tuple(sa) != tuple(sb):
+      return False       # same values laid out in a different array shape broadcast differently
     return Q.num_value(a) == Q.num_value(b)
   if isinstance(a, SBool) and isinstance(b, SBool):
     return a.e == b.e
@@ -152,6 +159,8 @@ def variants(params):
     elif name in ALT and (default is None or isinstance(default, (str, float))):
       for i, a in enumerate(ALT[name]):
         lab = a if not isinstance(a, tuple) else a[0]
+        if isinstance(a, list):
+          lab = "list" + "_".join(str(t) for t in a)
         extra = {}
         if name == "post_training_scale":
           extra = {"alpha": "auto_po2"}
@@ -160,7 +169,7 @@ def variants(params):
         if name in ("elements_per_scale", "min_po2_exponent", "max_po2_exponent"):
           extra = {"alpha": "auto_po2"}
           if name == "elements_per_scale":
-            extra["scale_axis"] = 0
+            extra["scale_axis"] = 0 if not isinstance(a, list) else [0, 1]
         d = {name: a}
         d.update(extra)
         out.append(("%s=%s" % (name, lab), d))
@@ -194,6 +203,8 @@ def rt_scenario(clsname, label, changes):
       return s
     q = r[1]
     s.replay = {"class": clsname, "kwargs": dict(kw)}
+    if "post_training_scale" in changes:
+      s.replay["pts_shape"] = [4, 1]
     rc = run_call(ip, ip.getattr(q, "get_config"), [])
     if rc[0] != "return":
       s.claim("no_raise", False)
@@ -215,6 +226,17 @@ def rt_scenario(clsname, label, changes):
         diffs.append(a)
     if diffs:
       s.info["raised"] = "attributes not restored by the round trip: %s" % diffs
+    # generic lookup route
+    gq = ip.getattr(ip.get_module(Q.QZ), "get_quantizer")
+    r3 = run_call(ip, gq, [{"class_name": clsname, "config": dict(cfg)}])
+    if r3[0] == "return" and isinstance(r3[1], Obj):
+      q3 = r3[1]
+      d3 = [a for a in sorted(rs) if (a in q2.attrs or a in q3.attrs) and
+            same(ip, q2.attrs.get(a, "<missing>"), q3.attrs.get(a, "<missing>")) is not True]
+      s.claim("via_get_quantizer", type(q3) is type(q2) and q3.cls is q2.cls and not [a for a in d3 if same(ip, q2.attrs.get(a, "<missing>"), q3.attrs.get(a, "<missing>")) is False])
+    else:
+      s.info["raised"] = "get_quantizer: %s" % (r3[1],)
+      s.claim("via_get_quantizer", False)
     # the property: same outputs (and the same scale) on every input
     x = Q.tensor("x", shape=(4, 6))
     s.vars["x"] = x.e
@@ -245,17 +267,6 @@ def rt_scenario(clsname, label, changes):
       sc1, sc2 = q.attrs.get("scale"), q2.attrs.get("scale")
       if sc1 is not None or sc2 is not None:
         s.claim("same_scale", same(ip, sc1, sc2))
-    # generic lookup route
-    gq = ip.getattr(ip.get_module(Q.QZ), "get_quantizer")
-    r3 = run_call(ip, gq, [{"class_name": clsname, "config": dict(cfg)}])
-    if r3[0] == "return" and isinstance(r3[1], Obj):
-      q3 = r3[1]
-      d3 = [a for a in sorted(rs) if (a in q2.attrs or a in q3.attrs) and
-            same(ip, q2.attrs.get(a, "<missing>"), q3.attrs.get(a, "<missing>")) is not True]
-      s.claim("via_get_quantizer", type(q3) is type(q2) and q3.cls is q2.cls and not [a for a in d3 if same(ip, q2.attrs.get(a, "<missing>"), q3.attrs.get(a, "<missing>")) is False])
-    else:
-      s.info["raised"] = "get_quantizer: %s" % (r3[1],)
-      s.claim("via_get_quantizer", False)
     return s
   return scenario
 
